@@ -505,8 +505,11 @@ def part_links(ctx, scratch, quick):
         c18.make_links(top, links, r)
         snap = corr.Snap(scratch, None, root=top)
         spelled, cwd = r.choice([(".", os.path.join(top, "root")), ("root", top), (os.path.join(top, "root"), top)])
-        cols = ["path", "name", "dir", "abspath", "absdir", "is_symlink"]
-        q = "select %s from %s %s into list" % (", ".join(cols), spelled, r.choice(["", "dfs"]))
+        cols = ["path", "name", "dir", "abspath", "absdir", "is_symlink", "size", "mode", "inode", "hardlinks", "is_file", "is_dir"]
+        # every other tree is searched with `symlinks`: the columns of a link stay the link's own (lstat),
+        # whether or not the search goes through it
+        follow = t % 2 == 1
+        q = "select %s from %s %s into list" % (", ".join(cols), spelled, r.choice(["", "dfs"]) + (" symlinks" if follow else ""))
         ctx.case(("links", t, q))
         case = {"argv": [q], "cwd": os.path.relpath(cwd, top), "links": ["%s -> %s" % (a, b) for a, b in links]}
         m, impl = corr.run_case(ctx, snap, [q], fmt="list", ncols=len(cols), cwd=cwd, extra={"links": case["links"]})
@@ -521,10 +524,19 @@ def part_links(ctx, scratch, quick):
             islnk = os.path.islink(full)
             nlinks += islnk
             want = {"name": os.path.basename(path), "dir": os.path.dirname(path),
-                    "absdir": os.path.realpath(os.path.dirname(os.path.normpath(full))),
                     "is_symlink": "true" if islnk else "false"}
-            if os.path.exists(full):
+            if not follow:
+                # (behind a followed link the spelled path contains links; `absdir` is then judged by C18)
+                want["absdir"] = os.path.realpath(os.path.dirname(os.path.normpath(full)))
+            if os.path.exists(full) and not follow:
                 want["abspath"] = os.path.realpath(full)       # canonical: a link resolves to what it points at
+            try:
+                st = os.lstat(full)
+                want.update({"size": str(st.st_size), "mode": py_mode_string(st.st_mode), "inode": str(st.st_ino),
+                             "hardlinks": str(st.st_nlink), "is_file": "true" if stat.S_ISREG(st.st_mode) else "false",
+                             "is_dir": "true" if stat.S_ISDIR(st.st_mode) else "false"})
+            except OSError:
+                pass
             got = {c: row[i].decode("utf-8", "surrogateescape") for i, c in enumerate(cols)}
             bad = [c for c in want if got[c] != want[c]]
             if bad:
